@@ -245,9 +245,13 @@ pub enum FaultKind {
     NegInfLogp,
     NanGrad,
     InfGrad,
+    /// From this evaluation on the log-density is lowered by 0.7 x 1000 per evaluation (eight evaluations, then constant):
+    /// no single step raises the energy by more than the default max_energy_error of 1000, but the energy error relative
+    /// to the start of the trajectory exceeds it from the second faulty evaluation on.
+    EnergyRamp,
 }
 
-pub const ALL_FAULTS: [FaultKind; 7] = [
+pub const ALL_FAULTS: [FaultKind; 8] = [
     FaultKind::Recoverable,
     FaultKind::Unrecoverable,
     FaultKind::NanLogp,
@@ -255,6 +259,7 @@ pub const ALL_FAULTS: [FaultKind; 7] = [
     FaultKind::NegInfLogp,
     FaultKind::NanGrad,
     FaultKind::InfGrad,
+    FaultKind::EnergyRamp,
 ];
 
 #[derive(Clone, Debug)]
@@ -423,7 +428,13 @@ impl CpuLogpFunc for LogDensity {
                         g[0] = f64::INFINITY
                     }
                 }
+                FaultKind::EnergyRamp => {}
             }
+        }
+        // a ramp that started at an earlier (or this) evaluation lowers the reported log-density
+        if let Some((k_r, _)) = self.faults.iter().find(|(kk, f)| **f == FaultKind::EnergyRamp && **kk <= k) {
+            let steps = (k - *k_r + 1).min(8) as f64;
+            res = res.map(|lp| lp - 700.0 * steps);
         }
         let mut l = self.log.lock().unwrap();
         if l.keep {
